@@ -41,6 +41,10 @@ var (
 	c02L25519, _ = new(big.Int).SetString("7237005577332262213973186563042994240857116359379907606001950938285454250989", 10)
 	c02L448, _   = new(big.Int).SetString("181709681073901722637330951972001133588410340171829515070372549795146003961539585716195755291692375963310293709091662304773755859649779", 10)
 
+	// field moduli 2^255-19 and 2^448-2^224-1
+	c02P25519 = new(big.Int).Sub(new(big.Int).Lsh(big.NewInt(1), 255), big.NewInt(19))
+	c02P448   = new(big.Int).Sub(new(big.Int).Sub(new(big.Int).Lsh(big.NewInt(1), 448), new(big.Int).Lsh(big.NewInt(1), 224)), big.NewInt(1))
+
 	c02Ctx255 = strings.Repeat("c", 255)
 	c02Ctx256 = strings.Repeat("c", 256)
 
@@ -57,17 +61,20 @@ var c02SchemeFacts = map[string]struct {
 	scalars []kit.Scalar
 	dil     *c02DilParams
 	dilOff  int
+	// offsets of the EdDSA public key inside the encoded key and of R inside the signature (-1: none); is448 selects the field
+	edPK, edR int
+	is448     bool
 }{
-	"Ed25519":            {family: "eddsa", scalars: []kit.Scalar{{Off: 32, Len: 32, Order: c02L25519}}},
-	"Ed448":              {family: "eddsa", scalars: []kit.Scalar{{Off: 57, Len: 57, Order: c02L448}}},
-	"Dilithium2":         {family: "dilithium", dil: &c02DilParams{4, 80, dil2.SignatureSize}},
-	"Dilithium3":         {family: "dilithium", dil: &c02DilParams{6, 55, dil3.SignatureSize}},
-	"Dilithium5":         {family: "dilithium", dil: &c02DilParams{8, 75, dil5.SignatureSize}},
-	"ML-DSA-44":          {family: "mldsa", dil: &c02DilParams{4, 80, mldsa44.SignatureSize}},
-	"ML-DSA-65":          {family: "mldsa", dil: &c02DilParams{6, 55, mldsa65.SignatureSize}},
-	"ML-DSA-87":          {family: "mldsa", dil: &c02DilParams{8, 75, mldsa87.SignatureSize}},
-	"Ed25519-Dilithium2": {family: "hybrids", dil: &c02DilParams{4, 80, dil2.SignatureSize}, scalars: []kit.Scalar{{Off: dil2.SignatureSize + 32, Len: 32, Order: c02L25519}}},
-	"Ed448-Dilithium3":   {family: "hybrids", dil: &c02DilParams{6, 55, dil3.SignatureSize}, scalars: []kit.Scalar{{Off: dil3.SignatureSize + 57, Len: 57, Order: c02L448}}},
+	"Ed25519":            {edPK: 0, edR: 0, family: "eddsa", scalars: []kit.Scalar{{Off: 32, Len: 32, Order: c02L25519}}},
+	"Ed448":              {edPK: 0, edR: 0, is448: true, family: "eddsa", scalars: []kit.Scalar{{Off: 57, Len: 57, Order: c02L448}}},
+	"Dilithium2":         {edPK: -1, edR: -1, family: "dilithium", dil: &c02DilParams{4, 80, dil2.SignatureSize}},
+	"Dilithium3":         {edPK: -1, edR: -1, family: "dilithium", dil: &c02DilParams{6, 55, dil3.SignatureSize}},
+	"Dilithium5":         {edPK: -1, edR: -1, family: "dilithium", dil: &c02DilParams{8, 75, dil5.SignatureSize}},
+	"ML-DSA-44":          {edPK: -1, edR: -1, family: "mldsa", dil: &c02DilParams{4, 80, mldsa44.SignatureSize}},
+	"ML-DSA-65":          {edPK: -1, edR: -1, family: "mldsa", dil: &c02DilParams{6, 55, mldsa65.SignatureSize}},
+	"ML-DSA-87":          {edPK: -1, edR: -1, family: "mldsa", dil: &c02DilParams{8, 75, mldsa87.SignatureSize}},
+	"Ed25519-Dilithium2": {edPK: dil2.PublicKeySize, edR: dil2.SignatureSize, family: "hybrids", dil: &c02DilParams{4, 80, dil2.SignatureSize}, scalars: []kit.Scalar{{Off: dil2.SignatureSize + 32, Len: 32, Order: c02L25519}}},
+	"Ed448-Dilithium3":   {edPK: dil3.PublicKeySize, edR: dil3.SignatureSize, is448: true, family: "hybrids", dil: &c02DilParams{6, 55, dil3.SignatureSize}, scalars: []kit.Scalar{{Off: dil3.SignatureSize + 57, Len: 57, Order: c02L448}}},
 }
 
 // c02WrapSigner: RFC 8032 signing by the independent model ref/eddsa (bound to the RFC vectors by C05's refcheck and,
@@ -77,6 +84,16 @@ func c02WrapSigner(v *eddsa.Variant) func(seed, msg []byte, ctx string) []byte {
 		sc, prefix := v.Expand(seed)
 		return v.SignRaw(sc, prefix, v.PublicKey(seed), msg, []byte(ctx))
 	}
+}
+
+// c02EdCoords: the y coordinate of an RFC 8032 point encoding at offset off (the top bit of the slot is the sign of x).
+// y + k*p is offered wherever it still fits below the sign bit: for edwards25519 that needs y < 19 (never the case for
+// the keys of the alphabet - the family is then empty), for edwards448 the 57-byte slot always has room (k up to 127).
+func c02EdCoords(off int, is448 bool) []kit.Scalar {
+	if is448 {
+		return []kit.Scalar{{Off: off, Len: 57, Bits: 455, Order: c02P448}}
+	}
+	return []kit.Scalar{{Off: off, Len: 32, Bits: 255, Order: c02P25519}}
 }
 
 func c02Opts(ctx string, alt bool) *sign.SignatureOpts {
@@ -124,6 +141,9 @@ func c02SchemeSubject(sch sign.Scheme) *kit.Subject {
 		if sch.Name() == "Ed448" {
 			s.WrapSign = c02WrapSigner(eddsa.Ed448)
 		}
+	}
+	if f.edPK >= 0 {
+		s.PKCoords, s.SigCoords = c02EdCoords(f.edPK, f.is448), c02EdCoords(f.edR, f.is448)
 	}
 	if f.dil != nil {
 		s.Hint = &kit.Hint{Off: f.dilOff + f.dil.sigSize - f.dil.omega - f.dil.k, Omega: f.dil.omega, K: f.dil.k}
